@@ -121,9 +121,18 @@ struct CModel {
     objs: [Option<std::collections::VecDeque<(u32, u64)>>; 2],
 }
 
+/// the property this process is checking (11 / 15; 0 = keep both): violations tagged for the other property are dropped
+/// where they arise, so that they cannot crowd the kept (shortest) cases out of the report
+static WHICH: std::sync::atomic::AtomicU8 = std::sync::atomic::AtomicU8::new(0);
+
 fn fail(rep: &mut Report, tag: &str, kind: &str, n: usize, path: &str, what: &str, exp: String, obs: String) {
     // "C11+C15": the observation contradicts both statements (the builder's visible contents and the move ledger)
     for t in tag.split('+') {
+        match WHICH.load(std::sync::atomic::Ordering::Relaxed) {
+            11 if t != "C11" => continue,
+            15 if t != "C15" => continue,
+            _ => {}
+        }
         rep.violation(viol(t, what, format!("{kind}|{n}|{path}"), format!("{kind}<Tracked, {n}> after [{path}]: {what}"), exp.clone(), obs.clone()));
     }
 }
@@ -573,6 +582,7 @@ macro_rules! for_n {
 }
 
 pub fn run(which: &str, tier: Tier, rep: &mut Report) -> (String, String) {
+    WHICH.store(if which == "C11" { 11 } else { 15 }, std::sync::atomic::Ordering::Relaxed);
     let maxn = tier.pick(4, 5, if miri_deep() { 3 } else { 2 });
     let extra = tier.pick(4, 5, if miri_deep() { 2 } else { 0 });
     // jobs: (kind, N, first op index) to spread the top-level branches over threads
@@ -603,7 +613,8 @@ pub fn run(which: &str, tier: Tier, rep: &mut Report) -> (String, String) {
     });
     rep.merge(r);
     copy_builder(rep);
-    let zst_bounds = crate::c15z::run(tier, rep);
+    // the zero-sized ledger only produces C15 verdicts
+    let zst_bounds = if which == "C15" { crate::c15z::run(tier, rep) } else { String::new() };
     rep.sample(|| "ArrayConsumer<Tracked,2>: [Next(0),Clone,NextBack(1),Drop(0),AssertEmpty(1)]".into());
     rep.sample(|| "ArrayBuilder<Tracked,2>: [Push(0),Clone,Push(1),Build(1),Build(0)] (build of the under-filled original must panic)".into());
     rep.sample(|| "array::map_!([Tracked;3], closure panicking at element 1)".into());
@@ -619,6 +630,7 @@ pub fn run(which: &str, tier: Tier, rep: &mut Report) -> (String, String) {
 }
 
 pub fn replay(which: &str, case: &str, rep: &mut Report) {
+    WHICH.store(if which == "C11" { 11 } else { 15 }, std::sync::atomic::Ordering::Relaxed);
     // kind|N|path : re-run the whole family for that N at the recorded depth is cheap and exact: filter by replay string
     if case.starts_with("zst") {
         return crate::c15z::replay(case, rep);
